@@ -16,6 +16,18 @@ def graceStep (o : OpLine) : String :=
     | some "notfound" => s!"=> ok discarded={startupDiscards .notFound}"
     | some "transient" => s!"=> ok discarded={startupDiscards .transientErr}"
     | _ => "=> bad-op"
+  | "startupn" =>
+    -- several containers of one shard: the verdict about each one is `startupDiscards` of its own answer
+    match o.get? "srcs" with
+    | some srcs =>
+      let one (a : String) : Option Bool :=
+        if a == "found" then some (startupDiscards .found)
+        else if a == "notfound" then some (startupDiscards .notFound)
+        else if a == "transient" then some (startupDiscards .transientErr) else none
+      let rs := (srcs.splitOn ",").map one
+      if rs.any Option.isNone then "=> bad-op"
+      else "=> ok discarded=" ++ ",".intercalate (rs.map fun r => toString (r.getD false))
+    | none => "=> bad-op"
   | _ => "=> bad-op"
 
 end NeoFS.Driver
